@@ -180,7 +180,15 @@ def main():
     # Create the main parser incorporating all of the auxiliary parsers and setting
     # config options as parser-level defaults (they'll override argument-level defaults)
     defaults = cfg.dict()
-    defaults.update(backend_cfg.dict())
+    # NOTE: backend options from the environment and the configuration file have been
+    # through guess_type already. argparse converts string defaults with the argument's
+    # type (guess_type again), which would turn the string '123' (written as '"123"')
+    # into an integer, while the same value given on the command line stays a string.
+    # Quote strings so that the second pass reproduces them unchanged
+    defaults.update(
+        (name, repr(value) if isinstance(value, str) else value)
+        for name, value in backend_cfg.dict().items()
+    )
     logger.info('The new defaults for CLI arguments are: %s', defaults)
     main_parser = cli.make_main_parser(
         cli.initial_parser,
